@@ -42,6 +42,11 @@ func TestFindings(t *testing.T) {
 		{"D8-prewrap-overfull-at-box-boundary", c11In{Para: P(20, "pre-wrap", "left", sp(Node{}, tx("n opq rst u ")), tx("vwxy zabcd")), Widths: []int{10}}},
 		{"D13-break-all-not-greedy", c11In{Para: Para{F: 20, WS: "normal", Align: "left", LH: "1", WB: "break-all", Nodes: []Node{tx("cd efghi jklmn opq")}}, Widths: []int{40}}},
 		{"D14-overflow-wrap-nonpositive-width", c11In{Para: Para{F: 16, WS: "normal", Align: "left", LH: "1", OW: "anywhere", Indent: 32, Nodes: []Node{tx("o pqrs tuvwx y za")}}, Widths: []int{8}}},
+		{"D17-overflow-wrap-cuts-midline-word-in-nested-box", c11In{Para: Para{F: 10, WS: "normal", Align: "left", LH: "1", OW: "break-word", Nodes: []Node{sp(Node{}, tx("aaaaaa "), sp(Node{}, tx("bbbbbbbb")))}}, Widths: []int{100}}},
+		{"D18-overflow-wrap-word-across-box-edge-overflows", c11In{Para: Para{F: 10, WS: "normal", Align: "left", LH: "1", OW: "anywhere", Nodes: []Node{tx("aaa"), sp(Node{}, tx("bbbbbbbb"))}}, Widths: []int{50}}},
+		{"D19-overflow-wrap-space-after-overfull-character", c11In{Para: Para{F: 8, WS: "normal", Align: "left", LH: "2", OW: "anywhere", Nodes: []Node{tx("ij "), sp(Node{FS: 24}, tx("stuvwx ")), tx("yz abcd")}}, Widths: []int{16}}},
+		{"D14b-overflow-wrap-nonpositive-width-start-spacing", c11In{Para: Para{F: 8, WS: "normal", Align: "left", LH: "1", OW: "anywhere", Nodes: []Node{tx("v w xy "), sp(Node{ML: 16, MR: 8}, tx("z ab cdefg"))}}, Widths: []int{8}}},
+		{"D16b-end-spacing-charged-to-overflow-wrap-fragment", c11In{Para: Para{F: 10, WS: "normal", Align: "left", LH: "1", OW: "anywhere", Nodes: []Node{sp(Node{PR: 12, FS: 8}, tx("rstu vwxyz")), tx(" a")}}, Widths: []int{40}}},
 		{"G1-gotext-preserved-newline-ignored", c11In{Mode: "split", Engine: "gotext", Text: &TextIn{Text: "pqru xab\ndeghiknq ruw", Family: "Ahem", Size: 16, WS: "pre", LineStart: true}, Widths: []int{8, 400}}},
 		{"G3-gotext-space-before-atomic-has-no-width", c11In{Engine: "gotext", Para: P(8, "normal", "right", tx("gh i "), ib(4, 8), tx(" j")), Widths: []int{200}}},
 	}
